@@ -238,6 +238,11 @@ end
 
 /-! ## phase 2: emitting -/
 
+/-- `printElements`: a gap before an element that is not the first when the source left at least one line free
+after the previous element (`lastEnd > 0 && start > lastEnd + 1`) or the kind of element changes -/
+def gapCond (first : Bool) (lastEnd start type lastType : Nat) : Bool :=
+  !first && ((decide (lastEnd > 0) && decide (start > lastEnd + 1)) || type != lastType)
+
 mutual
 /-- one element on a builder with indentation `n` (`printSection`, `printMethod`, `printField`),
 followed by the `addGap` of `printElements` where there is one -/
@@ -264,8 +269,7 @@ def itemCmds (n : Nat) : Item → List Cmd
 def elemsCmds (n : Nat) : List Item → Bool → Nat → Nat → List Cmd
   | [], _, _, _ => []
   | e :: rest, first, lastEnd, lastType =>
-    (if !first && ((decide (lastEnd > 0) && decide (e.loc.startLine > lastEnd + 1)) || e.typeOrder != lastType)
-      then [Cmd.gap] else []) ++
+    (if gapCond first lastEnd e.loc.startLine e.typeOrder lastType then [Cmd.gap] else []) ++
     itemCmds n e ++ elemsCmds n rest false e.loc.endLine e.typeOrder
 end
 
